@@ -295,6 +295,9 @@ def run(ctx, rep):
     from rules import c04_magnitude
     c04_magnitude.run(ctx, rep)
     c04_magnitude.run_errrun(ctx, rep)
+    # a slice is in bounds and on a character boundary only in the string its offsets were found in (the triage of the slicing sites assumes it)
+    from rules.c14 import rule_samestr
+    rule_samestr(ctx, rep, rid="R-C04-samestr")
     from rules import c04_backtrack
     c04_backtrack.run(ctx, rep)
 
